@@ -3,15 +3,17 @@
 1. obligations: Props/C04.lean (built, axiom-audited): the verified checker's verdict is a language witness, a
    valid tree holds no helper symbol, chart soundness of the Earley model (every policy / prediction order / scanner),
    helper collapsing preserves derivations, the model parser is sound (trees valid, rooted at the requested start,
-   leaves tile the input), the API filter, and the machine-checked witness that the scanner *as it is* is NOT
-   sound for payload terminals off the byte boundary.
+   leaves tile the input; with the alignment guard the source has now: payload leaves on cell boundaries), the API
+   filter; and, labelled OLD, the machine-checked witness that the scanner before /repo a33087ac was NOT sound for
+   payload terminals off the byte boundary (replayed on the implementation: it must yield no tree now).
 2. the property on the real code (independent of the model parser), on generated (grammar, start, input):
    `Grammar.parse_forest` in COMPLETE mode in a worker; EVERY yielded tree is
      (a) judged by the verified derivation checker `validB` (drv_ir; sound and complete for `Valid`),
      (b) serialised (str / bytes / bits) and compared with the input,
      (c) searched for helper symbols `<__…>` / `<*…*>`; its root must be the requested start symbol.
-3. correspondence: the same case through the Lean Earley model (drv_earley, the code's admission policy, the
-   recorded prediction order, CPython `re.match` as greedy oracle): same outcome and the same forest.
+3. correspondence: the same case through the Lean Earley model (drv_earley, the variant of the parser that
+   harness/translate_earley.py reads from the source, the recorded prediction order, CPython `re.match` as greedy
+   oracle): same outcome and the same forest.
 4. API level: generated specs with constraints; `Fandango(spec).parse(w)`: every yielded tree must be a tree of
    the unfiltered forest, pass (a)–(c) and satisfy every constraint under the Lean reference semantics `denote`
    (drv_cons) — so an input outside the constrained language yields nothing.
@@ -39,9 +41,11 @@ SIG_WIDE = "C04/bits-of-wide-character"
 TRUSTED = [
     "Lean 4.33.0 kernel; axioms ⊆ {propext, Classical.choice, Quot.sound} (audited per run); `decide` only for the "
     "finite witnesses",
-    "hand-written model lean/Model/Earley.lean of iterative_parser.py (one-shot COMPLETE mode; owned by C06), tied per run "
+    "hand-written model lean/Model/Earley.lean of iterative_parser.py (one-shot COMPLETE mode; shared with C06), tied per run "
     "by the forest comparison of this check (and the per-column state comparison of C06); prefix mode, incomplete "
     "states, computed repetitions, generators are not modelled",
+    "translator harness/translate_earley.py: which variant of the parser the source is (admission policy, {n,} compilation, "
+    "completing predict, the three scanner guards) — pinned source shapes, anything else is refused",
     "harness/impl/grammar_io.py (real grammar -> IR JSON, real tree -> tree JSON); the IR handed to the checker has its "
     "literals coerced to the input's type through Latin-1, as `Terminal.check` compares them",
     "regexes: CPython `re.fullmatch` (checker oracle) and `re.match` (greedy length oracle of the model)",
@@ -149,26 +153,22 @@ def has_bits(tj: list) -> bool:
     return any(tag == "i" for _, tag, _ in leaf_offsets(tj))
 
 
-def current_policy() -> str:
-    """the chart's admission policy as the source has it now (read-only use of C06's translator functions)"""
+def current_variant(lean) -> dict:
+    """the variant of the parser the source is now (C06's translator; regenerates lean/Generated/Earley.lean).  A refused
+    translation is a broken obligation of this check, too; the model then runs as the code was last understood."""
     from harness import translate_earley as te
-    try:
-        key = te.norm(te.hash_fields()) | te.norm(te.eq_fields())
-        extra = key - te.CORE
-        if extra == set():
-            return "core"
-        if extra == {"children"}:
-            return "acyclic" if te.covering_cut() else "impl"
-    except Exception:  # noqa
-        pass
-    return "impl"
+    info = te.regenerate()
+    for rf in info["refusals"]:
+        lean.broken.append({"module": "Generated.Earley", "reason": "translator refused: " + rf})
+    return info.get("variant") or {"policy": info.get("policy") or "acyclic", "cap": None, "predDone": True,
+                                   "aligned": True, "wideGuard": True, "emptyRegex": True}
 
 
 # ------------------------------------------------------------------------------------------------
 # grammar-level cases
 # ------------------------------------------------------------------------------------------------
 
-def make_tasks(run: Run, tier: str) -> list[dict]:
+def make_tasks(run: Run, tier: str, variant: dict) -> list[dict]:
     rng = run.rng("cases")
     quick = tier == "quick"
     n_grammars = 100 if quick else 1300
@@ -206,7 +206,7 @@ def make_tasks(run: Run, tier: str) -> list[dict]:
         else:
             spec, mode, tags = gen.preset_spec(rng)
             add(spec, mode, tags, "shared")
-    comp = driver_ask("drv_earley", [{"op": "compile", "grammar": g["gj"], "cap": g["cap"]} for g in grammars])
+    comp = driver_ask("drv_earley", [{"op": "compile", "grammar": g["gj"], "cap": variant["cap"]} for g in grammars])
     # words of the language from the REAL fuzzer (worker processes; Grammar.fuzz can be slow on odd grammars)
     fz_cases = []
     for g in grammars:
@@ -322,10 +322,9 @@ def judge_trees(run: Run, t: dict, real: dict, verdicts: list[dict]) -> int:
     return len(real["forest"])
 
 
-def grammar_phase(run: Run, tier: str, corr: list) -> None:
-    policy = current_policy()
-    run.coverage["policy"] = policy
-    tasks = make_tasks(run, tier)
+def grammar_phase(run: Run, tier: str, corr: list, variant: dict) -> None:
+    run.coverage["variant"] = variant
+    tasks = make_tasks(run, tier, variant)
     reals = eio.run_pool(tasks, workers=14, backstop_s=120.0)
     # (a) the verified checker on every real tree
     vreqs, vwhere = [], []
@@ -349,7 +348,7 @@ def grammar_phase(run: Run, tier: str, corr: list) -> None:
             if m.get("adds", 0) > 6000:
                 run.count("corr:skipped_big")
                 continue
-            mreqs.append(eio.model_request(r, t, policy, 40 * (m.get("adds", 0) + m.get("completes", 0)) + 5000))
+            mreqs.append(eio.model_request(r, t, variant, 40 * (m.get("adds", 0) + m.get("completes", 0)) + 5000))
             mwhere.append(i)
     mans = driver_ask("drv_earley", mreqs, timeout=1500) if mreqs else []
     model: dict[int, dict] = dict(zip(mwhere, mans))
@@ -383,23 +382,9 @@ def grammar_phase(run: Run, tier: str, corr: list) -> None:
         if mp["status"] == "fuel":
             corr.append({"case": replay_dict(t), "what": "model ran out of fuel, real finished", "steps": mp["steps"]})
         elif mp["status"] != want:
-            if st == "ok" and mp["status"] == "raised" and "bits" in " ".join(t["tags"]) + t.get("mode", ""):
-                # the model's IndexError comes from a payload terminal scanned off the byte boundary at the end of the
-                # table; a parser with the guard never gets there
-                run.count("corr:model_raised_off_boundary_real_ok")
-            else:
-                corr.append({"case": replay_dict(t), "what": f"real {st}, model {mp['status']}"})
+            corr.append({"case": replay_dict(t), "what": f"real {st}, model {mp['status']}"})
         elif st == "ok":
             if eio.canon_forest(mp["forest"]) != eio.canon_forest(r["forest"]):
-                # the model has the scanner of the code as it was pinned (no alignment guard, bits of wide characters):
-                # once the two open findings are repaired in /repo the real forest is the model's forest minus exactly
-                # the unsound trees — that is agreement with the *guarded* model (`scanAligned`), not a disagreement
-                wide = t["word"]["kind"] == "str" and any(c > 255 for c in t["word"]["cells"])
-                kept = [x for x in mp["forest"] if not misaligned_payload(x)
-                        and not (wide and bit_over_wide_cell(x, t["word"]["cells"]))]
-                if eio.canon_forest(kept) == eio.canon_forest(r["forest"]):
-                    run.count("corr:forest_equal_modulo_open_findings")
-                    continue
                 a, b = eio.canon_forest(mp["forest"]), eio.canon_forest(r["forest"])
                 corr.append({"case": replay_dict(t), "what": "forests differ", "model": len(a), "real": len(b),
                              "model_only": [x for x in a if x not in b][:2], "real_only": [x for x in b if x not in a][:2]})
@@ -558,8 +543,10 @@ def judge_api(run: Run, specs: list[dict], answers: list[dict], corr: list) -> N
 # witnesses of Props/C04.lean replayed on the implementation
 # ------------------------------------------------------------------------------------------------
 
-def replay_witnesses(run: Run) -> None:
-    """`C04_unaligned_scan_unsound` (Props/C04.lean): `<b>{4} b"a" <b>{4}` on b"a\\x1f" …"""
+def replay_witnesses(run: Run, variant: dict) -> None:
+    """`C04_old_unaligned_scan_unsound` (Props/C04.lean, OLD): `<b>{4} b"a" <b>{4}` on b"a\\x1f" — the code before /repo
+    a33087ac yielded a tree with a payload leaf at column 4; the theorem also says the parser as it is now yields
+    nothing.  Replayed on the implementation: any tree it yields is judged like every other."""
     t = {"id": "W0", "spec": '<start> ::= <b> <b> <b> <b> b"a" <b> <b> <b> <b>\n<b> ::= 0 | 1\n', "start": "<start>",
          "word": eio.word_json(b"a\x1f"), "cap_s": 20.0, "max_trees": 10, "modes": False, "mode": "bits", "tags": []}
     r = eio.run_pool([t], workers=1, backstop_s=120.0)[0]
@@ -567,6 +554,11 @@ def replay_witnesses(run: Run) -> None:
     if r.get("status") == "ok" and r.get("forest"):
         vs = driver_ask("drv_ir", valid_requests(r, t["word"]))
         judge_trees(run, t, r, vs)
+    if r.get("status") != "ok":
+        raise MachineryError(f"witness W0: {r.get('status')}")
+    if variant.get("aligned") and r.get("forest"):
+        run.report("C04/witness-disagrees", "the source has the alignment guard (translator) and the Lean model yields no tree "
+                   "on the OLD witness, but the real parser yields one", replay_dict(t), no_input=True)
 
 
 # ------------------------------------------------------------------------------------------------
@@ -608,10 +600,13 @@ def replay(path: str) -> int:
 def main(tier: str) -> int:
     run = Run(PID, tier, "proof")
     use_repo()
+    from harness import translate_earley as te
+    te.regenerate()                     # Generated/Earley.lean is an import of Props/C04.lean
     lean = lean_check("Props.C04", ["drv_earley", "drv_ir", "drv_cons"])
+    variant = current_variant(lean)
     corr: list = []
-    replay_witnesses(run)
-    grammar_phase(run, tier, corr)
+    replay_witnesses(run, variant)
+    grammar_phase(run, tier, corr, variant)
     api_phase(run, tier, corr)
     run.coverage["traces_validated_against_impl"] = run.counters.get("corr:forest_equal", 0) + \
         run.counters.get("corr:raised_equal", 0) + run.counters.get("corr:api_filter_equal", 0)
